@@ -301,6 +301,14 @@ def facts_of(R):
     F['next_pops_front'] = count(r'schedule\.pop_front\(\)', nt) == 1
     cl = find_fn(core, 'claim_pending_queue', 'fact:claim')
     F['claim_locks_schedule_then_core'] = bool(re.search(r'self\.schedule\.lock\(\).*?queue\.core\.lock\(\)', cl, flags=re.S))
+    # the job objects: a closure job runs its action once (take), a future job creates its future once, keeps it while Pending and
+    # drops it when Ready; the lifetime-erased job forwards to the borrowed job
+    jb = strip_comments(open(S + 'job.rs').read())
+    fj = strip_comments(open(S + 'future_job.rs').read())
+    F['job_runs_action_once'] = bool(re.search(r'let\s+action\s*=\s*self\.action\.take\(\)\s*;\s*if\s+let\s+Some\(action\)\s*=\s*action\s*\{\s*action\(\)\s*;\s*Poll::Ready\(\(\)\)\s*\}\s*else\s*\{\s*panic!', jb))
+    F['futurejob_take_moves_out'] = bool(re.search(r'let\s+mut\s+value\s*=\s*JobState::Completed\s*;\s*mem::swap\(self,\s*&mut\s+value\)\s*;\s*match\s+value\s*\{\s*JobState::FutureNotCreated\(create_fn\)\s*=>\s*Some\(FutureObj::new\(Box::new\(create_fn\(\)\)\)\)\s*,\s*JobState::WaitingForFuture\(future\)\s*=>\s*Some\(future\)\s*,\s*JobState::Completed\s*=>\s*None\s*\}', fj))
+    F['futurejob_keeps_future_when_pending'] = bool(re.search(r'let\s+action\s*=\s*self\.action\.take\(\)\s*;\s*if\s+let\s+Some\(mut\s+action\)\s*=\s*action\s*\{\s*match\s+action\.poll_unpin\(context\)\s*\{\s*Poll::Ready\(\(\)\)\s*=>\s*Poll::Ready\(\(\)\)\s*,\s*Poll::Pending\s*=>\s*\{\s*self\.action\s*=\s*JobState::WaitingForFuture\(action\)\s*;\s*Poll::Pending\s*\}\s*\}\s*\}\s*else\s*\{\s*panic!', fj))
+    F['unsafe_job_forwards_run'] = bool(re.search(r'fn\s+run\(&mut\s+self,\s*context:\s*&mut\s+Context\)\s*->\s*Poll<\(\)>\s*\{\s*unsafe\s*\{\s*\(\*self\.action\)\.run\(context\)\s*\}\s*\}', uj))
     # unsafe job: flag set, then notify_all, on drop
     F['unsafe_job_signals_on_drop'] = bool(re.search(r'impl\s+Drop\s+for\s+UnsafeJob.*?\(\*is_finished\.lock\(\)\.unwrap\(\)\)\s*=\s*true\s*;\s*on_finish\.notify_all\(\)', uj, flags=re.S))
     # scheduler future: signal sets the result then takes the waker inside one critical section; wake outside
@@ -315,6 +323,8 @@ def facts_of(R):
     F['drain_queue_waiting_for_poll_self'] = count(r'\.state\s*=\s*QueueState::WaitingForPoll\(self\.id\)', dqf) == 1
     F['drain_queue_stores_waker_before_park'] = bool(re.search(r'\.waker\s*=\s*Some\(context\.waker\(\)\.clone\(\)\)\s*;\s*self\.queue\.core\.lock\(\)[^;]*\.state\s*=\s*QueueState::WaitingForPoll\(self\.id\)', dqf))
     F['drain_queue_requeues_pending'] = count(r'self\.queue\.requeue\(job\)', dqf) == 1
+    # ... as the FIRST statement of the Pending arm (before the parked state is written and the deferred wake-up released)
+    F['drain_queue_requeue_first'] = bool(re.search(r'task::Poll::Pending\s*=>\s*\{\s*self\.queue\.requeue\(job\)\s*;', dqf))
     # SyncFuture field order: the state (user future) is declared - hence dropped - before task_finished
     m = re.search(r'pub\s+struct\s+SyncFuture<[^{]*\{(.*?)\n\}', syf, flags=re.S)
     if not m: raise TranslateError('fact:syncfuture_fields', "struct SyncFuture not found")
@@ -340,6 +350,26 @@ def facts_of(R):
     F['drop_only_syncs'] = ddn == ('fn drop(&mut self) { let data = DataRef::<T>(self.data); if thread::panicking() { scheduler().sync_no_panic(&self.queue, move || { '
         'let data = data.0; mem::drop(unsafe { Box::from_raw(data) }); }); } else { sync(&self.queue, move || { let data = data.0; mem::drop(unsafe { Box::from_raw(data) }); }); } }') and count(r'Box::from_raw', dsy) == 2
     F['drop_is_sync_free'] = bool(dd and re.search(r'else\s*\{\s*sync\(&self\.queue,\s*move\s*\|\|\s*\{\s*let\s+data\s*=\s*data\.0\s*;\s*mem::drop\(unsafe\s*\{\s*Box::from_raw\(data\)\s*\}\)\s*;', dd.group(1)))
+    # the Desync<T> wrapper: every operation goes to the scheduler function of the same name on self.queue, and the protected value is
+    # reached only INSIDE the queued closure through the pointer taken at the call (never outside the queue's exclusive access)
+    def body_of(src, name):
+        m = re.search(r"\bimpl<T:\s*'static\s*\+\s*Send>\s*Desync<T>\s*\{", src)
+        if not m: return ''
+        i = m.end() - 1
+        inh = src[i:match_brace(src, i) + 1]
+        try: return re.sub(r'\s+', ' ', find_fn(inh, name, 'fact:wrapper_' + name)).strip()
+        except TranslateError: return ''
+    W = {
+      'desync': '{ let data = DataRef::<T>(self.data); desync(&self.queue, move || { let data = data.0; job(unsafe { &mut *data }); }) }',
+      'sync': '{ let result = { let data = DataRef::<T>(self.data); sync(&self.queue, move || { let data = data.0; job(unsafe { &mut *data }) }) }; result }',
+      'try_sync': '{ let result = { let data = DataRef::<T>(self.data); try_sync(&self.queue, move || { let data = data.0; job(unsafe { &mut *data }) }) }; result }',
+      'future_desync': '{ let data = DataRef::<T>(self.data); scheduler().future_desync(&self.queue, move || { let data = data.0; let job = job(unsafe { &mut *data }); async { job.await } }) }',
+      'future_sync': '{ let data = DataRef::<T>(self.data); scheduler().future_sync(&self.queue, move || { let data = data.0; let job = job(unsafe { &mut *data }); async { job.await } }) }',
+      'after': '{ self.future_desync(move |data| { async move { let future_result = after.await; job(data, future_result) }.boxed() }) }',
+      'new': '{ let queue = queue(); Desync { queue: queue, data: Box::into_raw(Box::new(data)), _marker: PhantomData } }',
+    }
+    for name, want in W.items():
+        F['wrapper_' + name] = body_of(dsy, name) == want
     # pipes
     m = re.search(r'const\s+PIPE_BACKPRESSURE_COUNT\s*:\s*usize\s*=\s*(\d+)\s*;', pipe)
     if not m: raise TranslateError('fact:backpressure_count', "constant not found")
